@@ -3,6 +3,9 @@ H = "harness/C05_jsgf.c"
 GROUPS = [
     dict(name="jsgf_build_fsg_refuses", harness=H, entry="h_jsgf_build_fsg_internal", enforce="jsgf_build_fsg_internal", replace=["expand_rule", "glist_free"],
          allow_no_body=["*"], min_postconditions=2),
+    dict(name="expand_rhs_links", harness=H, entry="h_expand_rhs", enforce="expand_rhs", defines=["VERIF_C05_RHS"], unwind=12, unwindset="expand_rhs_wrapped_for_contract_checking.0:3,expand_rhs_wrapped_for_contract_checking.1:4,strcmp.0:9",
+         replace=["hash_table_lookup", "jsgf_fullname_from_rule", "jsgf_add_link", "expand_rule"], allow_no_body=["*"], min_postconditions=2,
+         bounded="right-hand sides of <= 2 atoms with symbolic 7-character names, rule stack of <= 1 rule"),
 ]
 ASSUMPTIONS = [
     "expand_rule / expand_rhs (mutually recursive: DFCC rejects recursion) are summarised by an ASSUMED contract: returns -1 on failure, may leave rules on the stack",
